@@ -1,5 +1,145 @@
-(** C16 — property theorems. *)
+(** C16 — property theorems (statements only; proofs are in C16/Proofs.v).
+
+    Every statement is about the executable model of C16/Model.v, whose
+    operations ([apply_op]: the accept path, teardown, the per-IP gate, runtime
+    limit changes, slab pressure) are the ones the correspondence check compares
+    with the real [SessionManager] on every run. *)
 From Coq Require Import List Arith ZArith NArith Bool Lia.
 From SV Require Import C16.Model C16.Proofs.
 Import ListNotations.
 Open Scope N_scope.
+
+(** 1. Refinement of the two private maps to one relation "token holds
+    (cluster, ip)": after every history, the forward count of every
+    (cluster, ip) is the number of tokens whose reverse-index entry contains it
+    (one slot per connection per cluster and ip: entries are duplicate-free
+    sets, tracking twice changes nothing), no zero-count entry is retained, only
+    live connections hold slots, every slot a token holds has a positive count
+    (the [saturating_sub] of [untrack_all] never saturates), and when no
+    connection is live both maps are empty (baseline). *)
+Theorem fwd_is_count :
+  forall (ops : list op),
+    let st := run_ops init ops in
+    let s := st_sm st in
+    (forall k, fwd_get k (fwd s) = holders k (rev s)) /\
+    (forall e, In e (fwd s) -> 0 < snd e) /\
+    (forall t, NoDup (rev_get t (rev s))) /\
+    (forall t, rev_get t (rev s) <> [] -> In t (live st)) /\
+    (forall t k, In k (rev_get t (rev s)) -> 1 <= fwd_get k (fwd s)) /\
+    (live st = [] -> fwd s = [] /\ rev s = []).
+Proof.
+  intros ops st s. pose proof (run_ops_ok ops init init_ok) as OK. fold st in OK.
+  pose proof (so_sm _ OK) as SM. fold s in SM.
+  repeat split.
+  - apply (ok_count _ SM).
+  - apply (ok_pos _ SM).
+  - apply (ok_sets _ SM).
+  - intros t Ht. apply (so_toks _ OK). apply rev_get_in. exact Ht.
+  - intros t k Hk. eapply untrack_no_underflow; eauto.
+  - apply baseline_lemma; assumption.
+  - apply baseline_lemma; assumption.
+Qed.
+
+Theorem one_slot_per_connection :
+  forall s tok k, track (track s tok k) tok k = track s tok k.
+Proof. exact track_idempotent. Qed.
+
+(** 2. Admission: after every history, [nb_connections] is exactly the number
+    of connections being served, never exceeds [max_connections], and neither
+    [assert!] of [incr]/[decr] has fired. *)
+Theorem never_over_max :
+  forall (ops : list op),
+    let st := run_ops init ops in
+    nb (st_sm st) = N.of_nat (length (live st)) /\
+    nb (st_sm st) <= max (st_sm st) /\
+    panicked st = false.
+Proof.
+  intros ops st. pose proof (run_ops_ok ops init init_ok) as OK. fold st in OK.
+  repeat split; [apply (so_nb _ OK)|apply (so_max _ OK)|apply (so_nopanic _ OK)].
+Qed.
+
+(** 3. The per-IP gate: it only lets a token through that already holds the
+    slot, or when the count is strictly below the effective limit (so granting
+    keeps it within the limit); and over any history that leaves the global
+    limit [L > 0] alone (no runtime [SetMaxConnectionsPerIp], no per-cluster
+    override — the documented exceptions), no (cluster, ip) ever exceeds [L]. *)
+Theorem gate_sound :
+  forall s tok k ov,
+    at_limit s tok k ov = false ->
+    let lim := match ov with Some v => v | None => limit s end in
+    lim = 0 \/ mem k (rev_get tok (rev s)) = true \/ fwd_get k (fwd s) < lim.
+Proof. exact at_limit_sound. Qed.
+
+Theorem limit_respected :
+  forall (mx L : N) (ops : list op),
+    Forall op_plain ops -> 0 < L ->
+    forall k, fwd_get k (fwd (st_sm (run_ops (apply_op init (ONew mx L)) ops))) <= L.
+Proof.
+  intros mx L ops HP HL.
+  assert (G : forall ops st, Forall op_plain ops -> st_ok st -> cap_ok L st -> cap_ok L (run_ops st ops)).
+  { clear. unfold run_ops. induction ops as [|o t IH]; intros st HP OK C; cbn [fold_left]; [assumption|].
+    inversion HP; subst. apply IH; auto using apply_op_ok. apply cap_step; auto. }
+  destruct (G ops (apply_op init (ONew mx L)) HP) as [_ HC].
+  - apply apply_op_ok, init_ok.
+  - split; cbn; [reflexivity|]. intros _ k. lia.
+  - exact (HC HL).
+Qed.
+
+(** 4. Accepting resumes: after every history, closing a live connection
+    leaves [can_accept = true] as soon as the remaining count is below the
+    re-enable threshold [max(1, max*90/100)]; in particular, for every
+    [max_connections >= 1] (incl. 1, where [1*90/100 = 0]), when the last
+    connection closes. *)
+Theorem accept_resumes :
+  forall (ops : list op) (tok : N),
+    let st := run_ops init ops in
+    In tok (live st) ->
+    let st' := close st tok in
+    (nb (st_sm st') < resume_threshold (max (st_sm st')) -> can_accept (st_sm st') = true) /\
+    (live st = [tok] -> can_accept (st_sm st') = true /\ nb (st_sm st') = 0).
+Proof.
+  intros ops tok st Hin st'.
+  pose proof (run_ops_ok ops init init_ok) as OK. fold st in OK.
+  assert (R : nb (st_sm st') < resume_threshold (max (st_sm st')) -> can_accept (st_sm st') = true).
+  { unfold st', close. apply lmem_In in Hin. rewrite Hin.
+    destruct (decr (untrack_all (set_slab (st_sm st) (slab (st_sm st) - 1)) tok)) as [s2|] eqn:D.
+    - cbn [st_sm]. apply (decr_resumes _ _ D).
+    - exfalso. unfold decr in D. cbn [untrack_all set_maps set_slab nb] in D.
+      destruct (nb (st_sm st) =? 0) eqn:Z; [|discriminate].
+      apply N.eqb_eq in Z. rewrite (so_nb _ OK) in Z. apply lmem_In in Hin.
+      destruct (live st); [destruct Hin|cbn in Z; lia]. }
+  split; [exact R|].
+  intros L. pose proof (close_ok st tok OK) as OK'. fold st' in OK'.
+  assert (Z : nb (st_sm st') = 0).
+  { rewrite (so_nb _ OK'). pose proof (so_nopanic _ OK') as P.
+    unfold st', close in P |- *. apply lmem_In in Hin. rewrite Hin in P |- *.
+    destruct (decr _) as [s2|]; cbn [live panicked] in P |- *.
+    - rewrite L. unfold lremove. cbn [filter]. rewrite N.eqb_refl. reflexivity.
+    - discriminate. }
+  split; [|exact Z]. apply R. rewrite Z. pose proof (resume_threshold_pos (max (st_sm st'))). lia.
+Qed.
+
+(* ------------------------------------------------------------------ *)
+(** non-vacuity *)
+
+Definition demo : list op :=
+  [ ONew 2 1; OAccept 0; OAccept 1; OAccept 2;
+    OTrack 0 (0, 0) None; OTrack 0 (0, 0) None; OTrack 1 (0, 0) None; OTrack 1 (0, 1) None ].
+
+Example fwd_is_count_nonvacuous :
+  let st := run_ops init demo in
+  live st = [0; 1] /\ nb (st_sm st) = 2 /\ can_accept (st_sm st) = false /\
+  fwd_get (0, 0) (fwd (st_sm st)) = 1 /\ fwd_get (0, 1) (fwd (st_sm st)) = 1 /\
+  holders (0, 0) (rev (st_sm st)) = 1 /\
+  let st2 := run_ops st [OClose 0; OClose 1] in
+  live st2 = [] /\ fwd (st_sm st2) = [] /\ rev (st_sm st2) = [] /\ can_accept (st_sm st2) = true.
+Proof. vm_compute. repeat split. Qed.
+
+Example limit_respected_nonvacuous :
+  Forall op_plain (tl demo) /\ fwd_get (0, 0) (fwd (st_sm (run_ops (apply_op init (ONew 2 1)) (tl demo)))) = 1.
+Proof. split; [repeat constructor|vm_compute; reflexivity]. Qed.
+
+Example accept_resumes_nonvacuous :
+  let st := run_ops init [ONew 1 0; OAccept 0; OAccept 1] in
+  live st = [0] /\ can_accept (st_sm st) = false /\ can_accept (st_sm (close st 0)) = true.
+Proof. vm_compute. repeat split. Qed.
